@@ -137,6 +137,8 @@ type xrSpec struct {
 
 type claimSpec struct {
 	HasRef bool       `json:"hasRef"`
+	// BoundElsewhere: the XR the claim points at is bound to another claim.
+	BoundElsewhere bool `json:"boundElsewhere,omitempty"`
 	SSA    bool       `json:"ssa"`
 	Pre    secretSpec `json:"pre"`
 }
@@ -144,6 +146,9 @@ type claimSpec struct {
 type scenario struct {
 	Pipeline  bool       `json:"pipeline"`
 	Steps     int        `json:"steps"`
+	// CompNS: the Composition sets writeConnectionSecretsToNamespace, so an XR without a secret
+	// reference is given one (named after its UID) by the reconciler's configurator.
+	CompNS bool `json:"compNS,omitempty"`
 	Filter    []string   `json:"filter"`
 	Res       []resSpec  `json:"res"`
 	FnDetails []fnDetail `json:"fnDetails,omitempty"`
@@ -252,6 +257,7 @@ func genScenario(withClaim bool) *rapid.Generator[scenario] {
 	return rapid.Custom(func(t *rapid.T) scenario {
 		sc := scenario{Pipeline: rapid.Bool().Draw(t, "pipeline"), Steps: 1, Seed: rapid.Int64Range(1, 1<<40).Draw(t, "nameseed")}
 		sc.Filter = genFilter().Draw(t, "filter")
+		sc.CompNS = rapid.IntRange(0, 2).Draw(t, "comp-ns") == 0
 		nres := rapid.IntRange(1, 2).Draw(t, "nres")
 		for i := 0; i < nres; i++ {
 			r := resSpec{Name: fmt.Sprintf("r%d", i), Kind: []string{"KindA", "KindB"}[i], SecretRef: rapid.IntRange(0, 4).Draw(t, "secretref") != 0}
@@ -292,7 +298,7 @@ func genScenario(withClaim bool) *rapid.Generator[scenario] {
 			sc.XRs = append(sc.XRs, x)
 		}
 		if withClaim {
-			sc.Claim = &claimSpec{HasRef: rapid.IntRange(0, 7).Draw(t, "claim-hasref") != 0, SSA: rapid.Bool().Draw(t, "claim-ssa"), Pre: genSecretSpec("cpre").Draw(t, "cpre")}
+			sc.Claim = &claimSpec{HasRef: rapid.IntRange(0, 7).Draw(t, "claim-hasref") != 0, BoundElsewhere: rapid.IntRange(0, 9).Draw(t, "claim-bound-elsewhere") == 0, SSA: rapid.Bool().Draw(t, "claim-ssa"), Pre: genSecretSpec("cpre").Draw(t, "cpre")}
 		}
 		return sc
 	})
@@ -354,6 +360,7 @@ func genHistory(sc scenario) *rapid.Generator[[]step] {
 type world struct {
 	env  *verifenv.XREnv
 	sc   scenario
+	implicit map[string]bool // XRs whose secret reference comes from the Composition
 	tags map[string]string // current spec.params.tag per XR
 	uids map[string]string // XR name -> UID
 	fail func(format string, a ...any)
@@ -374,21 +381,31 @@ func newWorld(sc scenario, fail func(string, ...any)) *world {
 	utilrand.Seed(sc.Seed)
 	env := verifenv.NewXREnv()
 	env.Keys = sc.Filter
-	w := &world{env: env, sc: sc, tags: map[string]string{}, uids: map[string]string{}, fail: fail, produced: map[string]map[string][]byte{}, producedStep: map[string]int{}}
+	w := &world{env: env, sc: sc, implicit: map[string]bool{}, tags: map[string]string{}, uids: map[string]string{}, fail: fail, produced: map[string]map[string][]byte{}, producedStep: map[string]int{}}
 	env.Runner = w.runner()
 	env.InstallComposition(sc.composition(), 1)
-	for _, x := range sc.XRs {
+	w.sc.XRs = append([]xrSpec{}, sc.XRs...)
+	for i, x := range sc.XRs {
 		xr := env.NewXR(x.Name, "comp")
 		_ = unstructured.SetNestedField(xr.Object, x.Tag, "spec", "params", "tag")
 		if x.HasRef {
 			xr.SetWriteConnectionSecretToReference(&xpv1.SecretReference{Name: x.Secret, Namespace: xrNS})
 		}
 		if sc.Claim != nil {
-			_ = unstructured.SetNestedMap(xr.Object, map[string]any{"apiVersion": "example.org/v1", "kind": "Thing", "namespace": claimNS, "name": claimName}, "spec", "claimRef")
+			cn := claimName
+			if sc.Claim.BoundElsewhere {
+				cn = "c2"
+			}
+			_ = unstructured.SetNestedMap(xr.Object, map[string]any{"apiVersion": "example.org/v1", "kind": "Thing", "namespace": claimNS, "name": cn}, "spec", "claimRef")
 		}
 		env.Sim.MustCreate("user", xr)
 		w.uids[x.Name] = string(xr.GetUID())
 		w.tags[x.Name] = x.Tag
+		if !x.HasRef && sc.CompNS {
+			// The composition asks on the XR's behalf: the secret is <namespace>/<XR UID>.
+			w.sc.XRs[i].HasRef, w.sc.XRs[i].Secret = true, w.uids[x.Name]
+			w.implicit[x.Name] = true
+		}
 	}
 	if sc.Claim != nil {
 		spec := map[string]any{
@@ -404,8 +421,8 @@ func newWorld(sc scenario, fail func(string, ...any)) *world {
 		w.claimUID = string(cm.GetUID())
 	}
 	// Pre-existing secrets are put in place after the owners exist so that "owned" can carry their UIDs.
-	for i := range sc.XRs {
-		w.putXRSecret(i, sc.XRs[i].Pre)
+	for i := range w.sc.XRs {
+		w.putXRSecret(i, w.sc.XRs[i].Pre)
 	}
 	if sc.Claim != nil {
 		w.putClaimSecret(sc.Claim.Pre)
@@ -483,6 +500,9 @@ func (sc scenario) composition() *v1.Composition {
 	c := &v1.Composition{}
 	c.SetName("comp")
 	c.Spec.CompositeTypeRef = v1.TypeReference{APIVersion: "example.org/v1", Kind: "XThing"}
+	if sc.CompNS {
+		c.Spec.WriteConnectionSecretsToNamespace = ptr.To(xrNS)
+	}
 	if sc.Pipeline {
 		c.Spec.Mode = ptr.To(v1.CompositionModePipeline)
 		for i := 0; i < sc.Steps; i++ {
@@ -853,7 +873,11 @@ func (w *world) reconcileXR(i int, rec *verifkit.Recorder, ctx string) xrOutcome
 	uid := w.uids[x.Name]
 	out := xrOutcome{}
 	requests := 0
+	conflict := false
 	for _, wr := range w.env.Sim.Log()[logFrom:] {
+		if wr.Actor == actorXR && strings.HasPrefix(wr.Err, "409") {
+			conflict = true // the reconciler legitimately stops early on a conflict
+		}
 		if wr.Actor != actorXR || wr.Key.Group != "" || wr.Key.Kind != "Secret" || wr.DryRun {
 			continue
 		}
@@ -921,7 +945,7 @@ func (w *world) reconcileXR(i int, rec *verifkit.Recorder, ctx string) xrOutcome
 			}
 		}
 		// All keys when the XRD lists none.
-		if len(w.sc.Filter) == 0 && controllableBy(before, uid) && rerr == nil {
+		if len(w.sc.Filter) == 0 && controllableBy(before, uid) && rerr == nil && !conflict {
 			ad := dataOf(after)
 			for k, v := range filtered {
 				if got, ok := ad[k]; !ok || !bytes.Equal(got, v) {
@@ -929,6 +953,9 @@ func (w *world) reconcileXR(i int, rec *verifkit.Recorder, ctx string) xrOutcome
 				}
 			}
 		}
+	}
+	if w.implicit[x.Name] {
+		rec.Label("xr:ref-from-composition")
 	}
 	if !x.HasRef {
 		rec.Label("xr:no-ref")
@@ -991,20 +1018,28 @@ func condTrue(o verifsim.Obj, tp string) bool {
 
 func (w *world) reconcileClaim(rec *verifkit.Recorder, ctx string) bool {
 	x := w.sc.XRs[0]
-	srcKey, dstKey := secretKey(xrNS, x.Secret), secretKey(claimNS, claimSecret)
-	src, dst := w.env.Sim.Get(srcKey), w.env.Sim.Get(dstKey)
 	xrBefore := w.env.Sim.Get(w.env.XRKey(x.Name))
+	// The XR's secret reference as stored (a reference given by the Composition appears with the first XR reconcile).
+	xrRefName, _ := verifsim.Nested(xrBefore, "spec", "writeConnectionSecretToRef", "name").(string)
+	xrRefNS, _ := verifsim.Nested(xrBefore, "spec", "writeConnectionSecretToRef", "namespace").(string)
+	xrHasRef := xrRefName != ""
+	srcKey, dstKey := secretKey(xrRefNS, xrRefName), secretKey(claimNS, claimSecret)
+	var src verifsim.Obj
+	if xrHasRef {
+		src = w.env.Sim.Get(srcKey)
+	}
+	dst := w.env.Sim.Get(dstKey)
 	logFrom := w.env.Sim.LogLen()
 	w.env.Recorder.Reset()
 	run := w.env.Sim.NewRun(actorClaim, nil)
-	_, rerr := w.claimReconciler(run.Client()).Reconcile(context.Background(), reconcile.Request{NamespacedName: types.NamespacedName{Namespace: claimNS, Name: claimName}})
+	res, rerr := w.claimReconciler(run.Client()).Reconcile(context.Background(), reconcile.Request{NamespacedName: types.NamespacedName{Namespace: claimNS, Name: claimName}})
 	dstAfter := w.env.Sim.Get(dstKey)
 	cmAfter := w.env.Sim.Get(verifsim.Key{Group: "example.org", Kind: "Thing", Namespace: claimNS, Name: claimName})
 
 	srcOwned := src != nil && verifsim.ControllerUID(src) == w.uids[x.Name]
 	// The "only if" side: both ends ask for a secret, the source is controlled by the bound XR,
 	// the destination is controllable by the claim.
-	mayWrite := x.HasRef && w.sc.Claim.HasRef && srcOwned && controllableBy(dst, w.claimUID)
+	mayWrite := xrHasRef && w.sc.Claim.HasRef && srcOwned && controllableBy(dst, w.claimUID) && !w.sc.Claim.BoundElsewhere
 	sd := dataOf(src)
 	requests, wrote := 0, false
 	for _, wr := range w.env.Sim.Log()[logFrom:] {
@@ -1029,7 +1064,7 @@ func (w *world) reconcileClaim(rec *verifkit.Recorder, ctx string) bool {
 			w.fail("%s: claim (uid %s) modified secret %s which it may not control (controller %q, type %q) (write #%d)", ctx, w.claimUID, dstKey, verifsim.ControllerUID(wr.Before), secType(wr.Before), wr.Seq)
 		}
 		if !mayWrite {
-			w.fail("%s: claim secret written although propagation is not permitted (xrHasRef=%v claimHasRef=%v srcOwned=%v dst=%s)", ctx, x.HasRef, w.sc.Claim.HasRef, srcOwned, stateOf(dst, w.claimUID))
+			w.fail("%s: claim secret written although propagation is not permitted (xrHasRef=%v claimHasRef=%v srcOwned=%v dst=%s xrBoundToAnotherClaim=%v)", ctx, xrHasRef, w.sc.Claim.HasRef, srcOwned, stateOf(dst, w.claimUID), w.sc.Claim.BoundElsewhere)
 		}
 		if wr.After == nil {
 			w.fail("%s: claim reconcile removed secret %s", ctx, dstKey)
@@ -1049,15 +1084,17 @@ func (w *world) reconcileClaim(rec *verifkit.Recorder, ctx string) bool {
 	}
 	// A claim that reports Ready=True in this reconcile has propagated: its secret is an exact copy.
 	ready := condTrue(xrBefore, "Ready")
-	if rerr == nil && mayWrite && ready && condTrue(cmAfter, "Ready") {
+	if rerr == nil && !res.Requeue && mayWrite && ready && condTrue(cmAfter, "Ready") {
 		if !dataEqual(dataOf(dstAfter), sd) {
 			w.fail("%s: claim is Ready but its secret %s holds %s, not a copy of XR secret %s %s", ctx, dstKey, fmtData(dataOf(dstAfter)), srcKey, fmtData(sd))
 		}
 	}
 	switch {
+	case w.sc.Claim.BoundElsewhere:
+		rec.Label("claim:xr-bound-to-another-claim")
 	case !ready:
 		rec.Label("claim:xr-not-ready")
-	case !x.HasRef || !w.sc.Claim.HasRef:
+	case !xrHasRef || !w.sc.Claim.HasRef:
 		rec.Label("claim:no-ref")
 	default:
 		rec.Labelf("claim:src=%s", stateOf(src, w.uids[x.Name]))
@@ -1066,7 +1103,7 @@ func (w *world) reconcileClaim(rec *verifkit.Recorder, ctx string) bool {
 	if wrote {
 		rec.Label("claim:wrote")
 	}
-	return ready && x.HasRef && w.sc.Claim.HasRef && (src == nil || !srcOwned || dst != nil)
+	return ready && xrHasRef && w.sc.Claim.HasRef && !w.sc.Claim.BoundElsewhere && (src == nil || !srcOwned || dst != nil)
 }
 
 // ---------------------------------------------------------------------------
@@ -1178,4 +1215,97 @@ func TestVerifC09Claim(t *testing.T) {
 			rec.NonTrivial(verifkit.JSON(sc)+verifkit.JSON(hist), func() any { return map[string]any{"scenario": sc, "history": hist} })
 		}
 	})
+}
+
+// ---------------------------------------------------------------------------
+// pinned rows: hand-written scenarios that go through the same oracles and
+// additionally state the expected end state, so that a vacuously quiet harness
+// (nothing published, nothing propagated) cannot pass.
+
+func rc(xr int) step { return step{Op: "reconcile", XR: xr} }
+
+func TestVerifC09Pinned(t *testing.T) {
+	rec := verifkit.New(t, "C09", "pinned rows")
+	pipe := func(filter []string, xr xrSpec, cl *claimSpec) scenario {
+		return scenario{
+			Pipeline: true, Steps: 2, Filter: filter, Seed: 11,
+			Res:       []resSpec{{Name: "r0", Kind: "KindA", SecretRef: true}},
+			FnDetails: []fnDetail{{Key: "a", Kind: srcTagged, Step: 0}, {Key: "b", Kind: srcFixed, Val: []byte("v1"), Step: 1}, {Key: "c", Kind: srcEcho, Res: "r0", FromKey: "d", Step: 1}},
+			XRs:       []xrSpec{xr}, Claim: cl,
+		}
+	}
+	xr1 := func(hasRef bool, pre secretSpec) xrSpec {
+		return xrSpec{Name: "xr1", Tag: "t1", HasRef: hasRef, Secret: "xr1-conn", Pre: pre}
+	}
+	xrKey, clKey := secretKey(xrNS, "xr1-conn"), secretKey(claimNS, claimSecret)
+	wantData := func(t *testing.T, w *world, k verifsim.Key, want map[string][]byte, ctl string) {
+		t.Helper()
+		o := w.env.Sim.Get(k)
+		if want == nil {
+			if o != nil {
+				t.Fatalf("secret %s exists (%s) but must not", k, fmtData(dataOf(o)))
+			}
+			return
+		}
+		if o == nil || !dataEqual(dataOf(o), want) || verifsim.ControllerUID(o) != ctl {
+			t.Fatalf("secret %s: want data %s controlled by %q, got %s controlled by %q (exists=%v)", k, fmtData(want), ctl, fmtData(dataOf(o)), verifsim.ControllerUID(o), o != nil)
+		}
+	}
+	rows := []struct {
+		name   string
+		sc     scenario
+		hist   []step
+		expect func(t *testing.T, w *world)
+	}{
+		{"pipeline-filter-a", pipe([]string{"a", "zz"}, xr1(true, secretSpec{}), nil), []step{rc(0), rc(0), rc(0)}, func(t *testing.T, w *world) {
+			wantData(t, w, xrKey, map[string][]byte{"a": taggedValue("xr1", "t1", "a")}, w.uids["xr1"])
+		}},
+		{"pipeline-no-filter-echo", pipe(nil, xr1(true, secretSpec{}), nil), []step{{Op: "provSecret", Data: map[string][]byte{"d": []byte("s3cr3t"), "a": []byte("no")}}, rc(0), rc(0)}, func(t *testing.T, w *world) {
+			wantData(t, w, xrKey, map[string][]byte{"a": taggedValue("xr1", "t1", "a"), "b": []byte("v1"), "c": []byte("s3cr3t")}, w.uids["xr1"])
+		}},
+		{"no-ref", pipe(nil, xr1(false, secretSpec{}), nil), []step{rc(0), rc(0)}, func(t *testing.T, w *world) { wantData(t, w, xrKey, nil, "") }},
+		{"dest-other-controller", pipe(nil, xr1(true, secretSpec{State: stOther, Data: map[string][]byte{"b": []byte("v2")}}), nil), []step{rc(0), rc(0)}, func(t *testing.T, w *world) {
+			wantData(t, w, xrKey, map[string][]byte{"b": []byte("v2")}, "uid-foreign")
+		}},
+		{"dest-uncontrolled-opaque", pipe(nil, xr1(true, secretSpec{State: stUnctlOpaque, Data: map[string][]byte{"b": []byte("v2")}}), nil), []step{rc(0), rc(0)}, func(t *testing.T, w *world) {
+			wantData(t, w, xrKey, map[string][]byte{"b": []byte("v2")}, "")
+		}},
+		{"dest-uncontrolled-connection-adopted", pipe([]string{"a"}, xr1(true, secretSpec{State: stUnctlConn, Data: map[string][]byte{"d": []byte("v2")}}), nil), []step{rc(0), rc(0)}, func(t *testing.T, w *world) {
+			wantData(t, w, xrKey, map[string][]byte{"d": []byte("v2"), "a": taggedValue("xr1", "t1", "a")}, w.uids["xr1"])
+		}},
+		{"pt-extraction", scenario{Filter: nil, Seed: 5, Steps: 1, XRs: []xrSpec{xr1(true, secretSpec{})}, Res: []resSpec{{Name: "r0", Kind: "KindA", SecretRef: true, Details: []ptDetail{
+			{FromKey: ptr.To("a")}, {FromKey: ptr.To("b"), Name: ptr.To("c")}, {Path: ptr.To("spec.forProvider.v"), Name: ptr.To("d")}, {Path: ptr.To("status.nope"), Name: ptr.To("b")}, {Value: ptr.To("5432"), Name: ptr.To("b"), Type: "FromValue"},
+		}}}}, []step{rc(0), {Op: "provSecret", Data: map[string][]byte{"a": []byte("v1"), "b": []byte("v2")}}, rc(0), rc(0)}, func(t *testing.T, w *world) {
+			wantData(t, w, xrKey, map[string][]byte{"a": []byte("v1"), "c": []byte("v2"), "d": []byte("t1"), "b": []byte("5432")}, w.uids["xr1"])
+		}},
+		{"pt-malformed-detail-publishes-nothing", scenario{Filter: nil, Seed: 5, Steps: 1, XRs: []xrSpec{xr1(true, secretSpec{})}, Res: []resSpec{{Name: "r0", Kind: "KindA", Details: []ptDetail{
+			{Value: ptr.To("x"), Name: ptr.To("a")}, {Path: ptr.To("spec.forProvider.v")},
+		}}}}, []step{rc(0), rc(0)}, func(t *testing.T, w *world) { wantData(t, w, xrKey, nil, "") }},
+		{"claim-copy", pipe([]string{"a"}, xr1(true, secretSpec{}), &claimSpec{HasRef: true}), []step{rc(0), rc(0), {Op: "claim"}, {Op: "claim"}}, func(t *testing.T, w *world) {
+			wantData(t, w, clKey, map[string][]byte{"a": taggedValue("xr1", "t1", "a")}, w.claimUID)
+		}},
+		{"claim-copy-ssa-overwrites-owned", pipe(nil, xr1(true, secretSpec{}), &claimSpec{HasRef: true, SSA: true, Pre: secretSpec{State: stOwned, Data: map[string][]byte{"zz": []byte("old")}}}), []step{rc(0), rc(0), {Op: "claim"}, {Op: "claim"}}, func(t *testing.T, w *world) {
+			wantData(t, w, clKey, map[string][]byte{"a": taggedValue("xr1", "t1", "a"), "b": []byte("v1")}, w.claimUID)
+		}},
+		{"claim-source-not-owned", pipe(nil, xr1(true, secretSpec{}), &claimSpec{HasRef: true}), []step{rc(0), rc(0), {Op: "tamper", Sec: &secretSpec{State: stOther, Data: map[string][]byte{"a": []byte("s3cr3t")}}}, {Op: "ready"}, {Op: "claim"}}, func(t *testing.T, w *world) {
+			wantData(t, w, clKey, nil, "")
+		}},
+		{"claim-source-uncontrolled", pipe(nil, xr1(true, secretSpec{}), &claimSpec{HasRef: true}), []step{rc(0), rc(0), {Op: "tamper", Sec: &secretSpec{State: stUnctlConn, Data: map[string][]byte{"a": []byte("s3cr3t")}}}, {Op: "ready"}, {Op: "claim"}}, func(t *testing.T, w *world) {
+			wantData(t, w, clKey, nil, "")
+		}},
+		{"claim-dest-opaque", pipe(nil, xr1(true, secretSpec{}), &claimSpec{HasRef: true, Pre: secretSpec{State: stUnctlOpaque, Data: map[string][]byte{"d": []byte("mine")}}}), []step{rc(0), rc(0), {Op: "claim"}}, func(t *testing.T, w *world) {
+			wantData(t, w, clKey, map[string][]byte{"d": []byte("mine")}, "")
+		}},
+		{"claim-xr-bound-elsewhere", pipe(nil, xr1(true, secretSpec{}), &claimSpec{HasRef: true, BoundElsewhere: true}), []step{rc(0), rc(0), {Op: "claim"}}, func(t *testing.T, w *world) {
+			wantData(t, w, clKey, nil, "")
+		}},
+	}
+	for _, row := range rows {
+		t.Run(row.name, func(t *testing.T) {
+			rec.Eval()
+			w := newWorld(row.sc, func(f string, a ...any) { t.Fatalf(f, a...) })
+			w.run(row.hist, rec)
+			row.expect(t, w)
+		})
+	}
 }
